@@ -8,8 +8,8 @@ class C20(core.Check):
     pid = 'C20'
     title = 'GBDT adapters, metrics, guards'
     driver = 'drv_c20'
-    quick_cases = 1500
-    thorough_cases = 25000
+    quick_cases = 9000
+    thorough_cases = 80000
     rule = ('55% conversions: real TensorFrames (0-5 rows; any subset of categorical 1-4 cols / numerical 1-4 cols / '
             'embedding 1-3 cols of width 1-3, inserted in random dict order; 0-5 ignored stypes; missing rate '
             '0/15/40/100%; y absent, float or int) through the real _to_xgboost_input/_to_catboost_input/'
